@@ -38,7 +38,40 @@ def big_ints(x):
     return any(abs(int(v)) >= 2 ** 30 for v in re.findall(r"i(-?\d+)", x))
 
 
+# ---- exceptions crossing a call that needed an arithmetic conversion (dispatch_with_conversions) or a multi-candidate dispatch: outside the model.
+# Metamorphic oracle: the SAME script with the argument spelled in the parameter's own type (exact dispatch) and in another arithmetic type
+# (converting dispatch) must deliver the same exception (kind, value, output, callback log) under the same injected fault.
+CONV_FUNS = [("def g%d(double d) { cb1(1); 5 }", "g%d(%s)", "1.5", "1"), ("def g%d(int d) { cb1(1); pr(d); d }", "g%d(%s)", "2", "2.0"),
+             ("def g%d(double d) { no_such_%d(1) }", "g%d(%s)", "1.5", "1"), ("def g%d(double d) { throw(d) }", "g%d(%s)", "2.0", "2"),
+             ("def g%d(double d) { cb1(1); cb2(2) }; def h%d(double d) { g%d(d) + 1 }", "h%d(%s)", "1.5", "1"),
+             ("def g%d(int d) { var v = [1, 2, 3]; v[d] }", "g%d(%s)", "7", "7.0"),
+             ("def g%d(double a, int b) { cb1(b) }", "g%d(1.5, %s)", "2", "2.0"),
+             ("def g%d(double d) { cb1(1) }; def g%d(string s) { cb2(2) }", "g%d(%s)", "1.5", "1"),
+             ("var v%d = [1, 2, 3]", "v%d[%s]", "5", "5l"), ("var v%d = [1, 2, 3]", "v%d[%s]", "1", "1l"),
+             ("var s%d = \"abc\"", "cb1(s%d[%s])", "1", "1l"), ("def g%d(double d) { [1, 2].for_each(fun(e) { cb1(e) }) }", "g%d(%s)", "1.5", "1")]
+CONV_USE = ["%s", "try { %s } catch (runtime_error e) { pr(1) } catch (eval_error e) { pr(2) } catch (e) { pr(3) }",
+            "try { %s } catch (eval_error e) { pr(2) } catch (out_of_range e) { pr(4) }", "try { %s } catch (e) { pr(3); throw(e) }",
+            "try { %s } catch (int e) { pr(5) } finally { pr(6) }", "def w%d() { %s }; w%d()", "[1].for_each(fun(q) { %s })",
+            "try { %s } catch (logic_error e) { pr(8) } catch (exception e) { pr(9) }"]
+
+
+def conv_dispatch_pairs(rng, n):
+    out, k = [], 500
+    for _ in range(n):
+        k += 1
+        d, call, exact, conv = rng.choice(CONV_FUNS)
+        u = rng.choice(CONV_USE).replace("%d", str(k))
+        pair = []
+        for arg in (exact, conv):
+            pair.append(d.replace("%d", str(k)) + "; " + u.replace("%s", call.replace("%d", str(k)).replace("%s", arg)))
+        out.append(tuple(pair))
+    return out
+
+
 def run(ctx):
+    sys.path.insert(0, os.path.join(C.VERIF, "extract"))
+    import e_catches
+    C.run_extractor(ctx, "catches", e_catches, "Catches.lean")
     status, text, rc = C.lean_obligations(ctx, ["C10"])
     have_driver = (rc == 0 and os.path.exists(C.driver_path())) or C.ensure_driver(ctx, [])
     with ctx.timer("harness_build"):
@@ -87,6 +120,29 @@ def run(ctx):
     found = C.compare_streams(ctx, "evalprog", labels, lines, [strip_shape(o) for o in iout], known=known,
                               skip=lambda spec, model, line: big_ints(spec) or big_ints(model),
                               nontrivial=lambda impl, line: "try" in line, bucket=lambda line: "try-nest" if "try" in line else "no-try")
+    # conversions / multi-candidate dispatch on the way of an exception
+    pairs = conv_dispatch_pairs(rng, 1500 if thorough else 150)
+    pcases, pmeta = [], []
+    for a, b in pairs:
+        for k, kind in [(1000000, "std")] + [(k, kind) for k in (0, 1) for kind in KINDS]:
+            pcases.append("%d %s 1 opt %s" % (k, kind, a.encode().hex()))
+            pcases.append("%d %s 1 opt %s" % (k, kind, b.encode().hex()))
+            pmeta.append((a, b, k, kind))
+    with ctx.timer("impl"):
+        pout, _ = C.run_harness_resilient(exe, [], pcases, timeout=600, mem_gb=6)
+    ctx.count("evaluations", len(pcases))
+    ndiff = 0
+    for i, (a, b, k, kind) in enumerate(pmeta):
+        oa, ob = pout[2 * i], pout[2 * i + 1]
+        ctx.hist("conversion_pair_outcomes", " ".join(oa.split(" ")[:2])[:40])
+        if oa != ob or oa.startswith("res=parse-error") or "crash" in oa[:12]:
+            ndiff += 1
+            found += 1
+            if ndiff <= 4:
+                ctx.violation("input", {"mode": "evalprog", "fault": {"callback_invocation": k, "kind": kind}, "script_exact_argument": a, "observed_exact": oa,
+                                        "script_converted_argument": b, "observed_converted": ob,
+                                        "expected": "the same exception / result whether or not the call needed an arithmetic conversion"})
+    ctx.cov["conversion_pairs"] = len(pairs)
     ctx.cov["harness_restarts"] = restarts
     ctx.cov["rule"] = ("generated programs biased towards try/catch/finally nests and throws, half of them with a C++ exception injected at a random callback invocation; "
                        "spec = independent Python interpreter, model = Lean evaluator; non-trivial = the program contains a try; distinct = distinct (program, fault)")
